@@ -38,9 +38,14 @@ CHECKS = {
     },
     "C04": {
         "level": "exploration",
-        "quick": {"shards": 16, "rounds": 1, "checks": 100, "timeout": 900},
-        "thorough": {"shards": 16, "rounds": 4, "checks": 500, "timeout": 3000},
-        "assumptions": [],
+        "quick": {"shards": 16, "rounds": 1, "checks": 500, "timeout": 900},
+        "thorough": {"shards": 16, "rounds": 8, "checks": 1500, "timeout": 3000},
+        "assumptions": [
+            "goroutine interleavings are sampled, not enumerated: each recorded execution is checked; schedules are perturbed by think times and a generated yield/sleep plan at the begin/commit/batch hook sites and cannot be replayed",
+            "each client goroutine holds at most one transaction at a time (documented limitation of the single reader-writer lock)",
+            "only transactions take part; plain Put/Get/Delete outside transactions are excluded, as the property says",
+            "a commit that reports an error is modelled as not applied (none occurred)",
+        ],
     },
     "C05": {
         "level": "exploration",
@@ -115,9 +120,12 @@ CHECKS = {
     },
     "C12": {
         "level": "exploration",
-        "quick": {"shards": 16, "rounds": 1, "checks": 100, "timeout": 900},
-        "thorough": {"shards": 16, "rounds": 4, "checks": 500, "timeout": 3000},
-        "assumptions": [],
+        "quick": {"shards": 16, "rounds": 1, "checks": 250, "timeout": 900},
+        "thorough": {"shards": 16, "rounds": 6, "checks": 500, "timeout": 3000},
+        "assumptions": [
+            "generated file sets follow the engine's recency rule: deeper level = older, within level 0 higher sequence/timestamp = newer, no overlap inside deeper levels",
+            "crash = process death at compaction/sstable hook sites; 'retire' drops flushed logs through WAL.ManageRetention",
+        ],
     },
     "C13": {
         "level": "exploration",
@@ -145,9 +153,16 @@ CHECKS = {
     },
     "C17": {
         "level": "exploration",
-        "quick": {"shards": 16, "rounds": 1, "checks": 100, "timeout": 900},
-        "thorough": {"shards": 16, "rounds": 4, "checks": 500, "timeout": 3000},
-        "assumptions": [],
+        # every case runs in a child process of its own (1x, or 4x when a begin timed out in the lock queue)
+        "quick": {"shards": 16, "rounds": 1, "checks": 200, "timeout": 900},
+        "thorough": {"shards": 16, "rounds": 4, "checks": 450, "timeout": 3000},
+        "shrinktime": "60s",
+        "assumptions": [
+            "liveness is decided with a bound: a begin that nothing legitimately stands in the way of must return within 5 s (normal: microseconds); the bound drops to 1 s only after a still-active transaction has been shown to be unreachable for every client, registry entry and goroutine",
+            "lock-aware generator: a begin is only awaited when it must succeed in every interleaving of sync.RWMutex (queued readers behind a possibly queued writer are left alone until the holders finish); which queued writer goes first is observed, not predicted",
+            "each client holds at most one transaction; stale cleanup is exercised either with every registered transaction certainly past its limit (the driver sleeps limit + 5 ms first) or with limits of 1 h / 1 min that cannot expire during a case",
+            "service handlers are called directly (no network); connection ids are the context value \"peer\" as read by Registry.Begin",
+        ],
     },
     "C18": {
         "level": "exploration", "race": True,
